@@ -483,6 +483,32 @@ def check_identity_blocks(ctx: Ctx, prefix: str, want: int = -1) -> None:
         reaching = [s for n_, s in dn.items() if cfg.path(n_, here, avoid=set(dn) - {n_}) is not None]
         fresh = bool(reaching) and all(isinstance(s.value, ast.Call) and last_attr(s.value) in ("copy", "deepcopy") for s in reaching)
         ctx.ob(f"{prefix}-identity-copy", con_c, fresh and tgt != src, "the identity must be subtracted on a copy: the discipline's own Jacobian must not be modified (a second linearisation would subtract it again)", node=c, stmt=f"{last_attr(c)} on a copy")
+    # the three representations are told apart by tests that cover EVERY array of the kind: a block of a sparse type
+    # the test does not name (csr_array, csc_matrix, coo...) would go through with its diagonal untouched
+    from gv.props.shared import literal_facts
+
+    for c in diag:
+        facts = literal_facts(cfg, cfg.node_of(rules.enclosing_stmt(h, c)))
+        kinds = []
+        for txt, pol in facts.items():
+            if not pol:
+                continue
+            try:
+                t_ = ast.parse(txt, mode="eval").body
+            except SyntaxError:
+                continue
+            if isinstance(t_, ast.Call) and dotted(t_.func) == "isinstance" and len(t_.args) == 2:
+                cls_ = t_.args[1]
+                kinds += [dotted(x) for x in (cls_.elts if isinstance(cls_, ast.Tuple) else [cls_])]
+            elif isinstance(t_, ast.Call) and last_attr(t_) == "issparse":
+                kinds.append("issparse")
+        if last_attr(c) == "setdiag":
+            general = {"sparse_classes", "issparse", "SparseArrayType"}
+            ok = bool(kinds) and (bool(set(kinds) & general) or {"spmatrix", "sparray"} <= {k.split(".")[-1] for k in kinds if k})
+            ctx.ob(f"{prefix}-identity", con_c, ok, f"the sparse form of the identity shift must apply to every sparse block (isinstance(.., sparse_classes) / issparse); it is guarded by {kinds}: a sparse Jacobian of another class keeps its diagonal and dR/dy is wrong", node=c, stmt="sparse shift: for every sparse class")
+        else:
+            ok = any((k or "").split(".")[-1] == "ndarray" for k in kinds)
+            ctx.ob(f"{prefix}-identity", con_c, ok, f"the dense form of the identity shift must apply to every ndarray block; it is guarded by {kinds}", node=c, stmt="dense shift: for every ndarray")
     ops = [c for c in walk_body(h) if isinstance(c, ast.Call) and last_attr(c) == "shift_identity"]
     ctx.ob(f"{prefix}-identity", con_c, len(ops) == 1, "operator Jacobians must be shifted by minus the identity", node=(ops or [h])[0], stmt="operator: shift_identity()")
     si = ctx.index.method(JOP, "JacobianOperator", "shift_identity")
